@@ -10,6 +10,7 @@ import SkNet.Lemmas.TopologyClustering
 import SkNet.Lemmas.TopologyCliquesTop
 import SkNet.Lemmas.TopologyCore
 import SkNet.Lemmas.TopologyCoreSpec
+import SkNet.Lemmas.TopologyFinset
 import Mathlib.Tactic.Ring
 import Mathlib.Tactic.FieldSimp
 import Mathlib.Algebra.Order.Field.Rat
@@ -150,6 +151,24 @@ example : [3, 0, 2, 1].Nodup ∧ ∀ a ∈ [3, 0, 2, 1], ∀ b ∈ [3, 0, 2, 1],
 theorem cliqueCountIn_eq_cliqueCount (n : Nat) (adj : Nat → Nat → Bool) (k : Nat) :
     cliqueCountIn adj k (List.range n) = cliqueCount n adj k :=
   cliqueCountIn_eq adj k (List.range n)
+
+/-- what the specification counts: `cliqueCount n adj k` is the number of `k`-element subsets of `{0, …, n-1}` whose
+    members are pairwise adjacent (Mathlib's `Finset.powersetCard`); for a symmetric `adj`, "pairwise" may be read
+    in either direction (`cliqueSet_symm`) -/
+theorem cliqueCount_is_textbook (n : Nat) (adj : Nat → Nat → Bool) (k : Nat) :
+    cliqueCount n adj k = (((Finset.range n).powersetCard k).filter (CliqueSet adj)).card :=
+  cliqueCount_eq_card n adj k
+
+theorem cliqueSet_symm (adj : Nat → Nat → Bool) (hsym : ∀ a b, adj a b = adj b a) (s : Finset Nat) :
+    CliqueSet adj s ↔ ∀ a ∈ s, ∀ b ∈ s, a ≠ b → adj a b = true := by
+  unfold CliqueSet
+  constructor
+  · intro h a ha b hb hab
+    by_cases hlt : a < b
+    · exact h a ha b hb hlt
+    · rw [hsym]; exact h b hb a ha (by omega)
+  · intro h a ha b hb hab
+    exact h a ha b hb (by omega)
 
 /-- ★ `cliques_kernel_refines`: the array kernel `count_cliques_from_dag` (in-place reordering of the adjacency
     segments, per-level candidate lists, truncated degrees, labels; `indices` passed by value) started on the box
